@@ -52,6 +52,32 @@ class Upstream:
             s.server_close()
 
 
+def listening_ports(pid):
+    """TCP ports the process is listening on (its socket inodes looked up in /proc/net/tcp*)."""
+    inodes = set()
+    try:
+        for fd in os.listdir("/proc/%d/fd" % pid):
+            try:
+                l = os.readlink("/proc/%d/fd/%s" % (pid, fd))
+            except OSError:
+                continue
+            m = re.match(r"socket:\[(\d+)\]", l)
+            if m:
+                inodes.add(m.group(1))
+    except OSError:
+        return set()
+    ports = set()
+    for f in ("/proc/net/tcp", "/proc/net/tcp6"):
+        try:
+            for line in open(f).read().splitlines()[1:]:
+                p = line.split()
+                if len(p) > 9 and p[3] == "0A" and p[9] in inodes:
+                    ports.add(int(p[1].rsplit(":", 1)[1], 16))
+        except OSError:
+            pass
+    return ports
+
+
 def free_port():
     s = socket.socket()
     s.bind(("127.0.0.1", 0))
@@ -116,40 +142,74 @@ def run(binp, tier, scratch, workers=16):
             for bv in values:
                 jobs.append((flag, name, default, pv, bv, valids))
 
-    def help_default(job):
+    default_port_lock = threading.Lock()
+
+    def parse_val(flag, v):
+        if flag == "debug":
+            return {"1": "true", "t": "true", "T": "true", "TRUE": "true", "true": "true", "True": "true",
+                    "0": "false", "f": "false", "F": "false", "FALSE": "false", "false": "false", "False": "false"}.get(v)
+        if re.fullmatch(r"[+-]?[0-9]+", v or ""):
+            return str(int(v))
+        return None
+
+    def effective(job):
+        """Starts the proxy with the environment of the job and observes the value in force."""
         flag, name, default, pv, bv, valids = job
-        env = {"PATH": os.environ.get("PATH", ""), "HOME": scratch}
+        env = {}
         if pv is not None:
             env["KAMAL_PROXY_" + name] = pv
+        # valid port values are private to the job (jobs run concurrently)
+        if flag != "debug":
+            if pv in valids:
+                pv = str(free_port())
+                env["KAMAL_PROXY_" + name] = pv
+            if bv in valids:
+                bv = str(free_port())
         if bv is not None:
             env[name] = bv
-        # a second valid value for the bare variable, to tell the two apart
-        if bv in valids:
-            env[name] = {"18080": "18081", "18443": "18444", "true": "true", "1": "1"}.get(bv, bv)
-        rc, out = sh([binp, "run", "--help"], env=env)
-        m = re.search(r"--%s\b[^\n]*?(?:\(default ([^)]*)\))?\n" % re.escape(flag), out)
-        shown = m.group(1) if m and m.group(1) is not None else ("false" if flag == "debug" else None)
-        # reference: flag (not given here), else prefixed, else bare, else default; malformed -> default
-        def parse(v):
-            if flag == "debug":
-                return {"1": "true", "t": "true", "T": "true", "TRUE": "true", "true": "true", "True": "true",
-                        "0": "false", "f": "false", "F": "false", "FALSE": "false", "false": "false", "False": "false"}.get(v)
-            return v if re.fullmatch(r"[+-]?[0-9]+", v or "") else None
         chosen = env.get("KAMAL_PROXY_" + name) if pv is not None else (env.get(name) if bv is not None else None)
-        want = default if chosen is None else (parse(chosen) or default)
-        if want is not None and want.startswith("+"):
-            want = want[1:]
-        return job, env, shown, want, rc
+        want = default if chosen is None else (parse_val(flag, chosen) or default)
+        args = []
+        # the options not under test get explicit free ports
+        if flag != "http-port":
+            args += ["--http-port", str(free_port())]
+        if flag != "https-port":
+            args += ["--https-port", str(free_port())]
+        lock = default_port_lock if (flag != "debug" and want == default) else None
+        if lock:
+            lock.acquire()
+        try:
+            px = Proxy(binp, scratch, extra_env=env, args=args)
+            try:
+                if flag == "debug":
+                    px.cli("remove", "nosuch")
+                    time.sleep(0.15)
+                    got = "true" if '"level":"DEBUG"' in px.logs() else "false"
+                else:
+                    other = int(args[1])
+                    if px.p.poll() is not None:
+                        # could not start: the error names the address it tried to bind
+                        m = re.search(r"listen tcp [^:]*:(\d+)", px.logs())
+                        got = m.group(1) if m else "not-started"
+                    else:
+                        mine = listening_ports(px.p.pid) - {other}
+                        got = ",".join(str(x) for x in sorted(mine)) or "none"
+            finally:
+                px.stop()
+        finally:
+            if lock:
+                lock.release()
+        return job, env, got, want
 
     with cf.ThreadPoolExecutor(workers) as ex:
-        for job, env, shown, want, rc in ex.map(help_default, jobs):
+        for job, env, got, want in ex.map(effective, jobs):
             evals += 1
             flag, name, default, pv, bv, _ = job
-            classes.add("run-option %s prefixed=%s bare=%s" % (flag, "unset" if pv is None else ("valid" if pv == want or pv in ("true", "1", "18080", "18443") else "malformed"), "unset" if bv is None else "set"))
-            if shown != want:
-                add("run-option-resolution %s" % flag, "KAMAL_PROXY_%s=%r %s=%r: effective default shown by `run --help` is %r, documented resolution gives %r" % (name, pv, name, env.get(name), shown, want), json.dumps({"flag": flag, "prefixed": pv, "bare": bv}))
+            classes.add("run-option %s prefixed=%s bare=%s" % (flag, "unset" if pv is None else ("valid" if parse_val(flag, pv) else "malformed"), "unset" if bv is None else ("valid" if parse_val(flag, bv) else "malformed")))
+            if got != want:
+                add("run-option-resolution %s" % flag, "environment %r (no flag): the proxy runs with %s=%s, the documented resolution gives %s" % (env, flag, got, want), json.dumps({"flag": flag, "prefixed": pv, "bare": bv}))
             if len(samples) < 2:
-                samples.append({"kind": "run-option", "flag": flag, "prefixed": pv, "bare": bv, "effective": shown})
+                samples.append({"kind": "run-option", "flag": flag, "environment": env, "effective": got})
 
     # flag beats environment: really start the proxy
     hp, sp = free_port(), free_port()
@@ -169,6 +229,39 @@ def run(binp, tier, scratch, workers=16):
             add("flag-does-not-override-env debug", "--debug with KAMAL_PROXY_DEBUG=false: no debug-level line logged", "debug")
     finally:
         px.stop()
+    # a flag given explicitly with the value of the built-in default still beats the environment
+    for flagargs, env, what, want in (
+            (["--http-port", "80", "--https-port", str(free_port())], {"HTTP_PORT": str(free_port())}, "http-port", "80"),
+            (["--https-port", "443", "--http-port", str(free_port())], {"KAMAL_PROXY_HTTPS_PORT": str(free_port())}, "https-port", "443"),
+            (["--debug=false", "--http-port", str(free_port()), "--https-port", str(free_port())], {"DEBUG": "true"}, "debug", "false")):
+        px = Proxy(binp, scratch, extra_env=env, args=flagargs)
+        try:
+            evals += 1
+            classes.add("run-option flag-equal-to-default-overrides-env " + what)
+            if what == "debug":
+                px.cli("remove", "nosuch")
+                time.sleep(0.2)
+                got = "true" if '"level":"DEBUG"' in px.logs() else "false"
+            else:
+                got = "none"
+                try:
+                    socket.create_connection(("127.0.0.1", int(want)), timeout=1).close()
+                    got = want
+                except OSError:
+                    m = re.search(r"listen tcp [^:]*:(\d+)", px.logs())
+                    if m:
+                        got = m.group(1)
+                    else:
+                        for v in env.values():
+                            try:
+                                socket.create_connection(("127.0.0.1", int(v)), timeout=1).close()
+                                got = v
+                            except OSError:
+                                pass
+            if got != want:
+                add("flag-does-not-override-env " + what + " (flag value equals the default)", "`run %s` with environment %r: %s in force is %s" % (" ".join(flagargs), env, what, got), what)
+        finally:
+            px.stop()
     # debug from the environment
     for env, want in (({"KAMAL_PROXY_DEBUG": "true"}, True), ({"DEBUG": "true"}, True), ({"KAMAL_PROXY_DEBUG": "maybe", "DEBUG": "true"}, False), ({}, False), ({"KAMAL_PROXY_DEBUG": "false", "DEBUG": "true"}, False)):
         px = Proxy(binp, scratch, extra_env=env)
@@ -294,6 +387,6 @@ def run(binp, tier, scratch, workers=16):
         px.stop()
         up.stop()
     cov = {"evaluations": evals, "distinct_nontrivial": len(classes), "samples": samples, "exhaustive": True,
-           "rule": "(1) for each run option (http-port, https-port, debug): KAMAL_PROXY_<NAME> in {unset, valid, malformed...} x <NAME> in {unset, valid, malformed...} (flag absent) read off `run --help`, flag-over-environment and debug resolution observed on a running proxy; (2) all %d combinations of the deploy flags involved in validation, run with no proxy listening: a refusal must carry its message and not dial, an accepted combination must reach the dial error; (3) every client command against a live proxy in states where it succeeds and fails: exit status != 0 iff the proxy reported an error; (4) `list` rows (ANSI stripped) after each step of a history with multi-host, multi-path, multi-target, paused, stopped services" % len(combos),
+           "rule": "(1) for each run option (http-port, https-port, debug): KAMAL_PROXY_<NAME> in {unset, valid, malformed...} x <NAME> in {unset, valid, malformed...} (flag absent), the value in force observed on a running proxy (listening port / debug-level log line); flag over environment, including a flag value equal to the built-in default; (2) all %d combinations of the deploy flags involved in validation, run with no proxy listening: a refusal must carry its message and not dial, an accepted combination must reach the dial error; (3) every client command against a live proxy in states where it succeeds and fails: exit status != 0 iff the proxy reported an error; (4) `list` rows (ANSI stripped) after each step of a history with multi-host, multi-path, multi-target, paused, stopped services" % len(combos),
            "bounds": "see rule"}
     return found, cov
